@@ -7,7 +7,7 @@ use hbs_lms::verif_hooks::constants::*;
 /// every parameter list inside the configured per-level limits serialises into the fixed-capacity
 /// buffers: the worst case of each level is its maximum height with its minimum Winternitz
 /// parameter at n = 32
-harness! { fn c14_capacities_cover_the_limits() unwind 12 {
+harness! { fn c14_capacities_cover_the_limits() unwind 20 {
     assert!(MAX_ALLOWED_HSS_LEVELS == CFG_LEVELS, "level limit as configured");
     let mut min_w = 8usize;
     let mut max_h = 0usize;
